@@ -42,7 +42,7 @@ func c07Build(tier string) []c07Case {
 	}
 	var cs []c07Case
 	seen := map[string]bool{}
-	for _, e := range zooList {
+	for _, e := range append(append([]peer.Entry{}, zooList...), zooDisputed...) {
 		if tier != "thorough" {
 			// every non-data entry up to 300 bytes; for the data kinds one entry per data-type family
 			if e.Kind == "ROW" || e.Kind == "PARAMS" || e.Kind == "ROWFMT2" || e.Kind == "PARAMFMT" || e.Kind == "PARAMFMT2" {
@@ -174,6 +174,11 @@ func (c07) Run(plan interface{}, schedSeed uint64, replay []simrt.Choice, lenien
 	StdOutcome(v, base.Out)
 	StdOutcome(v, out)
 	if v.Machinery != "" {
+		return v, out
+	}
+	if isDisputed[p.Entry] && len(errsOnly(base.Recs)) > 0 && base.ConnErr == "" && base.SendErr == "" && len(base.Out.Crashes) == 0 {
+		// an encoding the library's decoder does not accept even in one piece: nothing to compare a truncation with
+		v.Probe("disputed-entry-rejected-unfragmented")
 		return v, out
 	}
 	if base.ConnErr != "" || base.SendErr != "" || len(base.Out.Crashes) > 0 || len(errsOnly(base.Recs)) > 0 {
